@@ -578,3 +578,253 @@ Example ex_hier :
   hier_map [1; 3] (Some [4; 0; 2; 2]) = Some [0; 2] /\
   child2root [[true; true; false; true]; [false; true; true]] = Some [1; 3].
 Proof. vm_compute. repeat split. Qed.
+
+(* ------------------------------------------------------------------ *)
+(* sequences of store_basin calls                                      *)
+(* ------------------------------------------------------------------ *)
+Lemma store_basin_sound fl sb fl' :
+  length (f_slots fl) = 10%nat ->
+  (match sb with
+   | SBFile _ (Some _) (Some k) _ => 0 <= k < 10
+   | _ => True
+   end) ->
+  store_basin fl sb = Some fl' ->
+  length (f_slots fl') = 10%nat /\
+  f_n fl' = f_n fl /\ f_innate fl' = f_innate fl /\
+  (forall j m0, slot (f_slots fl) j = Some m0 ->
+                slot (f_slots fl') j = Some m0) /\
+  exists b, f_basins fl' = f_basins fl ++ [b] /\
+            slot_holds (f_slots fl') b (sb_map sb) /\
+            b_internal b = (match sb with SBInternal _ _ => true
+                                     | _ => false end) /\
+            (match sb with
+             | SBInternal d _ => b_int b = d
+             | SBFile t _ _ _ => b_target b = Z.to_nat t
+             end).
+Proof.
+  intros Hl Hk H. unfold store_basin in H.
+  destruct sb as [data m|t [mm|] name feats]; simpl in *.
+  - destruct (alloc (f_slots fl) m) as [[k slots']|] eqn:Ea; [|discriminate].
+    inversion H; subst; simpl.
+    destruct (alloc_sound _ _ _ _ Hl Ea) as (Hk10 & Hs & Hl' & Hp).
+    repeat split; auto. eexists; repeat split; simpl; eauto.
+  - destruct name as [k0|].
+    + destruct (alloc_named (Z.to_nat k0) (f_slots fl) mm)
+        as [[k slots']|] eqn:Ea; [|discriminate].
+      inversion H; subst; simpl.
+      assert (Hlt : (Z.to_nat k0 < length (f_slots fl))%nat) by lia.
+      destruct (alloc_named_sound _ _ _ _ _ Hlt Ea)
+        as (-> & Hs & Hl' & Hp).
+      repeat split; auto; try lia. eexists; repeat split; simpl; eauto.
+    + destruct (alloc (f_slots fl) mm) as [[k slots']|] eqn:Ea;
+        [|discriminate].
+      inversion H; subst; simpl.
+      destruct (alloc_sound _ _ _ _ Hl Ea) as (Hk10 & Hs & Hl' & Hp).
+      repeat split; auto. eexists; repeat split; simpl; eauto.
+  - inversion H; subst; simpl. repeat split; auto.
+    eexists; repeat split; simpl; eauto.
+Qed.
+
+Definition name_ok (sb : sbasin) : Prop :=
+  match sb with
+  | SBFile _ (Some _) (Some k) _ => 0 <= k < 10
+  | _ => True
+  end.
+
+(* After any sequence of store_basin calls every basin definition written
+   (earlier ones included) refers to a basinmap feature that holds exactly
+   the map that was requested for it. *)
+Lemma store_basins_sound sbs :
+  forall fl fl',
+    length (f_slots fl) = 10%nat ->
+    Forall name_ok sbs ->
+    store_basins fl sbs = Some fl' ->
+    length (f_slots fl') = 10%nat /\
+    f_innate fl' = f_innate fl /\
+    (forall j m0, slot (f_slots fl) j = Some m0 ->
+                  slot (f_slots fl') j = Some m0) /\
+    exists bs, f_basins fl' = f_basins fl ++ bs /\
+               Forall2 (fun sb b => slot_holds (f_slots fl') b (sb_map sb))
+                       sbs bs.
+Proof.
+  induction sbs as [|sb sbs IH]; intros fl fl' Hl Hn H; simpl in H.
+  - inversion H; subst. repeat split; auto.
+    exists []; split; [now rewrite app_nil_r|constructor].
+  - destruct (store_basin fl sb) as [fl1|] eqn:E1; [|discriminate].
+    inversion Hn as [|? ? Hn1 Hn2]; subst.
+    destruct (store_basin_sound _ _ _ Hl Hn1 E1)
+      as (Hl1 & _ & Hi1 & Hp1 & b & Hb & Hh & _).
+    destruct (IH fl1 fl' Hl1 Hn2 H) as (Hl' & Hi' & Hp' & bs & Hbs & HF).
+    repeat split; auto.
+    + congruence.
+    + exists (b :: bs); split.
+      * rewrite Hbs, Hb, <- app_assoc. reflexivity.
+      * constructor; [|assumption].
+        unfold slot_holds in *. destruct (sb_map sb) as [mm|]; [|assumption].
+        destruct Hh as [k [Hk Hs]]. exists k; split; auto.
+Qed.
+
+(* hierarchy child + filter: the complete translation of one upstream map *)
+Lemma export_child_map_compose basin_data m root_data idx_root child_data
+      filt :
+  view_through basin_data m = Some root_data ->
+  gather root_data idx_root = Some child_data ->
+  zlen child_data = zlen filt ->
+  exists m1 m', hier_map idx_root m = Some m1 /\
+                export_map filt (Some m1) = Some m' /\
+                gather basin_data m' = Some (mask filt child_data).
+Proof.
+  intros Hv Hc Hl.
+  destruct (hier_map_sound _ _ _ _ _ Hv Hc) as [m1 [E1 G1]].
+  destruct (export_map_sound basin_data (Some m1) child_data filt G1 Hl)
+    as [m' [E2 G2]].
+  exists m1, m'; auto.
+Qed.
+
+(* ------------------------------------------------------------------ *)
+(* lookup through any graph of sound basin definitions                 *)
+(* ------------------------------------------------------------------ *)
+Lemma first_some_In {B C} (f : B -> option C) l c :
+  first_some f l = Some c -> exists x, In x l /\ f x = Some c.
+Proof.
+  induction l as [|x l IH]; simpl; [discriminate|].
+  destruct (f x) as [c'|] eqn:E.
+  - intros H; inversion H; subst. exists x; auto.
+  - intros H. destruct (IH H) as [y [Hy Hf]]. exists y; auto.
+Qed.
+
+Lemma In_insert_sorted b x l : In x (insert_sorted b l) -> x = b \/ In x l.
+Proof.
+  induction l as [|y l IH]; simpl.
+  - intros [->|[]]; auto.
+  - destruct (bkey b <? bkey y); simpl.
+    + intros [->|[->|H]]; auto.
+    + intros [->|H]; auto. destruct (IH H); auto.
+Qed.
+
+Lemma In_sorted_basins x l : In x (sorted_basins l) -> In x l.
+Proof.
+  induction l as [|y l IH]; simpl; [auto|].
+  intros H. apply In_insert_sorted in H as [->|H]; auto.
+Qed.
+
+Section SoundLookup.
+  Variable truth : Z -> list Z.
+  Variable omap : nat -> list Z.
+
+  (* Whatever route the lookup takes (innate, internal, file basins in
+     priority order, nested basins of any depth), a feature that can be read
+     equals the origin's feature at the events the file stands for. *)
+  Lemma lookup_sound st :
+    store_sound truth omap st ->
+    forall fuel fid f o d,
+      lookup fuel st fid f = Some o ->
+      materialize o = Some d ->
+      gather (truth f) (omap fid) = Some d.
+  Proof.
+    intros Hst fuel; induction fuel as [|fu IH]; intros fid f o d Hl Hm;
+      simpl in Hl; [discriminate|].
+    destruct (get_file st fid) as [fl|] eqn:Eg; [|discriminate].
+    destruct (Hst fid fl Eg) as (HI & HB & HN).
+    destruct (assoc f (f_innate fl)) as [d0|] eqn:Ea.
+    - inversion Hl; subst. simpl in Hm. inversion Hm; subst. now apply HI.
+    - set (attempt := fun b : bdef =>
+              if provides fu st b f
+              then match (if b_internal b then assoc f (b_int b)
+                          else match lookup fu st (b_target b) f with
+                               | Some o0 => materialize o0
+                               | None => None
+                               end) with
+                   | Some d1 => match b_slot b with
+                                | Some k => match slot (f_slots fl) k with
+                                            | Some m => Some (OProxy d1 m)
+                                            | None => None
+                                            end
+                                | None => Some (ODirect d1)
+                                end
+                   | None => None
+                   end
+              else None) in Hl.
+      assert (Hat : forall b, In b (f_basins fl) -> attempt b = Some o ->
+                              gather (truth f) (omap fid) = Some d).
+      { intros b Hb Hab. unfold attempt in Hab.
+        destruct (provides fu st b f); [|discriminate].
+        destruct (b_internal b) eqn:Ei.
+        - destruct (HN b Hb Ei) as (k & m & rows & Hk & Hs & Hr & Hd).
+          destruct (assoc f (b_int b)) as [d1|] eqn:Ed; [|discriminate].
+          rewrite Hk, Hs in Hab. inversion Hab; subst. simpl in Hm.
+          specialize (Hd f d1 Ed).
+          rewrite (gather_gather _ _ _ Hd m), Hr in Hm. exact Hm.
+        - specialize (HB b Hb Ei).
+          destruct (lookup fu st (b_target b) f) as [o0|] eqn:El;
+            [|discriminate].
+          destruct (materialize o0) as [d1|] eqn:Em0; [|discriminate].
+          pose proof (IH _ _ _ _ El Em0) as Ht.
+          destruct (b_slot b) as [k|].
+          + destruct HB as [m [Hs Hg]]. rewrite Hs in Hab.
+            inversion Hab; subst. simpl in Hm.
+            rewrite (gather_gather _ _ _ Ht m), Hg in Hm. exact Hm.
+          + inversion Hab; subst. simpl in Hm. inversion Hm; subst.
+            rewrite HB. exact Ht. }
+      assert (Hfs : forall l, (forall x, In x l -> In x (f_basins fl)) ->
+                              first_some attempt l = Some o ->
+                              gather (truth f) (omap fid) = Some d).
+      { intros l Hsub Hf. destruct (first_some_In _ _ _ Hf) as [b [Hb Hab]].
+        apply (Hat b); auto. }
+      destruct (first_some attempt
+                  (filter b_internal (sorted_basins (f_basins fl))))
+        as [o1|] eqn:E1.
+      + inversion Hl; subst. apply (Hfs _ (fun x Hx =>
+          In_sorted_basins _ _ (proj1 (proj1 (filter_In _ _ _) Hx))) E1).
+      + destruct (first_some attempt
+                    (filter (fun b => negb (b_internal b))
+                            (sorted_basins (f_basins fl))))
+          as [o2|] eqn:E2.
+        * inversion Hl; subst. apply (Hfs _ (fun x Hx =>
+            In_sorted_basins _ _ (proj1 (proj1 (filter_In _ _ _) Hx))) E2).
+        * apply (Hfs _ (fun x Hx => In_sorted_basins _ _ Hx) Hl).
+  Qed.
+
+  Lemma resolve_sound st fid f d :
+    store_sound truth omap st ->
+    resolve st fid f = Some d ->
+    gather (truth f) (omap fid) = Some d.
+  Proof.
+    intros Hst H. unfold resolve in H.
+    destruct (lookup (fuel_of st) st fid f) as [o|] eqn:El; [|discriminate].
+    exact (lookup_sound st Hst _ _ _ _ _ El H).
+  Qed.
+
+  (* ... and so does every access pattern on the object handed out *)
+  Lemma query_sound st fid f o mapped cache ix :
+    store_sound truth omap st ->
+    lookup (fuel_of st) st fid f = Some o ->
+    gather (truth f) (omap fid) = Some mapped ->
+    match o with
+    | ODirect d => np_index d ix = np_index mapped ix
+    | OProxy d m =>
+        forall dm, gather d m = Some dm ->
+        cache_ok (is_scalar_feat f) dm cache ->
+        snd (proxy_getitem Z d m (is_scalar_feat f) cache ix)
+        = np_index mapped ix
+    end.
+  Proof.
+    intros Hst Hl Hg. destruct o as [d|d m].
+    - pose proof (lookup_sound st Hst _ _ _ _ d Hl eq_refl) as H.
+      rewrite Hg in H. now inversion H.
+    - intros dm Hdm Hc.
+      pose proof (lookup_sound st Hst _ _ _ _ dm Hl Hdm) as H.
+      rewrite Hg in H. inversion H; subst.
+      exact (proj1 (proxy_routes_agree d m _ dm Hdm cache ix Hc)).
+  Qed.
+End SoundLookup.
+
+Example ex_store_sound :
+  (* origin (file 0), a mapped referrer (file 1) and an internal basin *)
+  let st := run_steps
+      [SWrite 3 [(1, [10; 11; 12])] [];
+       SWrite 4 [] [SBFile 0 (Some [2; 2; 0; 1]) None None;
+                    SBInternal [(2, [70; 71])] [1; 1; 0; 0]]] in
+  resolve st 1 1 = Some [12; 12; 10; 11] /\
+  resolve st 1 2 = Some [71; 71; 70; 70].
+Proof. vm_compute. split; reflexivity. Qed.
